@@ -25,21 +25,22 @@ import (
 type CancelVariant int
 
 const (
-	CvParkedDeliveredBeforeRelease    CancelVariant = iota // loop parked at an iteration boundary, cancel fully delivered, then released
-	CvParkedReleaseRacesDelivery                           // loop parked, cancel acknowledged and loop released at the same time
-	CvInsideRun                                            // some task is inside Run
-	CvRacingLastExit                                       // cancel issued together with the release of the last task
-	CvWaitingBehindBusy                                    // job waits behind a busy slot (no delay)
-	CvWaitingPendingDelay                                  // job waits with a pending start delay
-	CvWaitingExpiredDelayBehindBusy                        // delay expired, but the slot is busy
-	CvDuplicateConcurrent                                  // two concurrent cancels of the same running job
-	CvDeliveredAtRunEntry                                  // the cancel is delivered between the scheduler's launch of a task and the runner's entry: the runner refuses it
-	CvInsideRunDuringGracefulShutdown                      // like inside-run, but a graceful Shutdown is waiting for the job when the cancel arrives
+	CvParkedDeliveredBeforeRelease              CancelVariant = iota // loop parked at an iteration boundary, cancel fully delivered, then released
+	CvParkedReleaseRacesDelivery                                     // loop parked, cancel acknowledged and loop released at the same time
+	CvInsideRun                                                      // some task is inside Run
+	CvRacingLastExit                                                 // cancel issued together with the release of the last task
+	CvWaitingBehindBusy                                              // job waits behind a busy slot (no delay)
+	CvWaitingPendingDelay                                            // job waits with a pending start delay
+	CvWaitingExpiredDelayBehindBusy                                  // delay expired, but the slot is busy
+	CvDuplicateConcurrent                                            // two concurrent cancels of the same running job
+	CvDeliveredAtRunEntry                                            // the cancel is delivered between the scheduler's launch of a task and the runner's entry: the runner refuses it
+	CvInsideRunDuringGracefulShutdown                                // like inside-run, but a graceful Shutdown is waiting for the job when the cancel arrives
+	CvSiblingStillStoppingWhileTaskBecomesReady                      // a task becomes ready (its dependency ended in time) while a sibling of the canceled job is still stopping
 	cvCount
 )
 
 func (v CancelVariant) String() string {
-	return [...]string{"parked-delivered-before-release", "parked-release-races-delivery", "inside-run", "racing-last-exit", "waiting-behind-busy", "waiting-pending-delay", "waiting-expired-delay-behind-busy", "duplicate-concurrent", "delivered-at-run-entry", "inside-run-during-graceful-shutdown"}[v]
+	return [...]string{"parked-delivered-before-release", "parked-release-races-delivery", "inside-run", "racing-last-exit", "waiting-behind-busy", "waiting-pending-delay", "waiting-expired-delay-behind-busy", "duplicate-concurrent", "delivered-at-run-entry", "inside-run-during-graceful-shutdown", "sibling-still-stopping-while-task-becomes-ready"}[v]
 }
 
 // NumCancelVariants is the number of variants
@@ -121,6 +122,16 @@ func RunCancelCase(seed int64, o CancelOpts) *HistResult {
 	g := gen.Shape(r, o.Shape)
 	if o.Shape >= 7 {
 		g = gen.RandDAG(r, 2+r.Intn(5), 0.45)
+	}
+	if o.Variant == CvSiblingStillStoppingWhileTaskBecomesReady {
+		// two independent branches: "long" keeps running after it was told to stop; x -> y (-> z): x ends just before the stop
+		g = gen.Graph{Names: []string{"long", "x", "y"}, Deps: map[string][]string{"y": {"x"}}}
+		switch o.Shape % 3 {
+		case 1:
+			g = gen.Graph{Names: []string{"long", "x", "y", "z"}, Deps: map[string][]string{"y": {"x"}, "z": {"y"}}}
+		case 2:
+			g = gen.Graph{Names: []string{"long", "long2", "x", "y", "y2"}, Deps: map[string][]string{"y": {"x"}, "y2": {"x"}}}
+		}
 	}
 	waitingVariant := o.Variant == CvWaitingBehindBusy || o.Variant == CvWaitingPendingDelay || o.Variant == CvWaitingExpiredDelayBehindBusy
 	def := definition.PipelineDef{Concurrency: 1, Tasks: map[string]definition.TaskDef{}, ContinueRunningTasksAfterFailure: r.Intn(2) == 0, SourcePath: "gen/cancel.yml"}
@@ -490,6 +501,63 @@ func RunCancelCase(seed int64, o CancelOpts) *HistResult {
 				}
 				expectCanceled = true
 			}
+		case CvSiblingStillStoppingWhileTaskBecomesReady:
+			if o.Real {
+				res.Inconclusive = "variant is run with the monitored runner only"
+				return res
+			}
+			var roots []string
+			for _, n := range g.Names {
+				if len(g.Deps[n]) == 0 {
+					roots = append(roots, n)
+				}
+			}
+			for _, n := range roots {
+				if !waitFor("task at gate "+n, func() bool { return sys.Gates.AtGate(target, n) }) {
+					return res
+				}
+				if n != "x" {
+					sys.Gates.MarkSlowStop(target, n)
+				}
+			}
+			if !quiesce() {
+				return res
+			}
+			// park the loop at its next iteration top; while it is parked: x ends successfully (its dependents are ready
+			// now), then the job is canceled and the stop is delivered (the slow siblings keep running)
+			sys.ParkWhen(target, func(int64, map[string]int32) bool { return true })
+			if !waitFor("loop parked", func() bool { p, _ := sys.Parked(target); return p }) {
+				return res
+			}
+			sys.Release(target, "x", core.Outcome{Kind: core.OutOK})
+			if !waitFor("x returned", func() bool { return countKind(core.KRunExit, target) >= 1 }) {
+				return res
+			}
+			cls := sys.Cancel(0, target)
+			q.journal("cancel J1 (x done, %d siblings still running, loop parked) -> %s", len(roots)-1, cls)
+			if cls != "ok" {
+				find("C04:cancel-result", "cancel of running job returned %q", cls)
+			}
+			if !waitFor("stop delivered", func() bool { return countKind(core.KCancelEnter, target) >= 1 }) {
+				return res
+			}
+			sys.Unpark(target)
+			// give the loop a few iterations with the siblings still inside the runner, then let them stop
+			c0, _ := sys.IterCount(target)
+			for i := 0; i < 400; i++ {
+				if c, _ := sys.IterCount(target); c >= c0+4 {
+					break
+				}
+				time.Sleep(100 * time.Microsecond)
+			}
+			for _, n := range roots {
+				if n != "x" {
+					sys.Gates.ReleaseStop(target, n)
+				}
+			}
+			doneBefore = 1
+			expectCanceled = true
+			key += fmt.Sprintf(" siblings=%d", len(roots)-1)
 		case CvDeliveredAtRunEntry:
 			if !o.Real {
 				for _, n := range order[:b] {
@@ -551,6 +619,9 @@ func RunCancelCase(seed int64, o CancelOpts) *HistResult {
 		if !o.Real {
 			for _, k := range sys.Gates.Waiting() {
 				sys.Release(k[0], k[1], core.Outcome{Kind: core.OutOK})
+			}
+			for _, k := range sys.Gates.Stopping() {
+				sys.Gates.ReleaseStop(k[0], k[1])
 			}
 		}
 		v := sys.Snapshot(-1)
